@@ -1,6 +1,7 @@
 package main
 
 import (
+	"sort"
 	"go/token"
 	"go/types"
 	"strings"
@@ -423,6 +424,17 @@ func ruleBatchDelivery(c *Ctx, r *R) {
 				okClose = true
 				cCell = loadCell(d.Call.Args[0])
 			}
+			// a deferred function literal whose first block closes the channel (defer func() { close(c); s.Close() }())
+			if f := staticCallee(&d.Call); f != nil && f.Blocks != nil {
+				for _, x := range f.Blocks[0].Instrs {
+					if call, ok := x.(*ssa.Call); ok {
+						if b, ok := call.Call.Value.(*ssa.Builtin); ok && b.Name() == "close" && chanElemIsNotEmptyStruct(call.Call.Args[0].Type()) {
+							okClose = true
+							cCell = loadCell(call.Call.Args[0])
+						}
+					}
+				}
+			}
 		}
 	}
 	r.ok(okClose, "stream.BatchFunc|producer-defer-close", producer.Pos(), "the producer must `defer close(c)` unconditionally so the batcher learns about the end on every exit")
@@ -464,43 +476,79 @@ func ruleBatchDelivery(c *Ctx, r *R) {
 	r.ok(okB, "stream.BatchFunc|batcher-defer-close", batcher.Pos(), "the batcher must close batchC in an unconditional deferred closure on every exit")
 	// out.err: written only by the producer, with the error obtained from s.Next; the drop path is guarded by the
 	// self-cancellation test (both err == context.Canceled and bgCtx.Err() compared)
+	// the function that runs the producer's loop: the goroutine itself or the helper it delegates to
+	loopFn := producer
+	var nextCall *ssa.Call
+	prodFrames := map[*ssa.Function]bool{}
+	for _, fr := range deepFrames(producer, 2) {
+		prodFrames[fr.f] = true
+		instrs(fr.f, func(b *ssa.BasicBlock, i int, in ssa.Instruction) {
+			if call, ok := in.(*ssa.Call); ok && call.Call.IsInvoke() && call.Call.Method.Name() == "Next" && nextCall == nil {
+				nextCall = call
+				loopFn = fr.f
+			}
+		})
+	}
+	var errV ssa.Value
+	if nextCall != nil {
+		for _, ref := range *nextCall.Referrers() {
+			if ex, ok := ref.(*ssa.Extract); ok && ex.Index == 1 {
+				errV = ex
+			}
+		}
+	}
+	isErrField := func(addr ssa.Value) bool {
+		fa, ok := addr.(*ssa.FieldAddr)
+		return ok && fieldName(fa.X.Type(), fa.Field) == "err" && isNamedType(fa.X.Type(), "stream", "batchStream")
+	}
 	root := rootFn(producer)
 	nw := 0
-	for _, g := range withAnon(root) {
+	scan := append([]*ssa.Function{}, withAnon(root)...)
+	for f := range prodFrames {
+		dup := false
+		for _, g := range scan {
+			if g == f {
+				dup = true
+			}
+		}
+		if !dup {
+			scan = append(scan, f)
+		}
+	}
+	sort.Slice(scan, func(i, j int) bool { return scan[i].Pos() < scan[j].Pos() })
+	recordedByCaller := false
+	for _, g := range scan {
+		g := g
 		instrs(g, func(b *ssa.BasicBlock, i int, in ssa.Instruction) {
 			st, ok := in.(*ssa.Store)
-			if !ok {
+			if !ok || !isErrField(st.Addr) {
 				return
 			}
-			if _, f, ok := storedField(st.Addr); ok && f == "err" && strings.Contains(path(st.Addr), "out") {
-				nw++
-				fromNext := false
-				if ex, ok := st.Val.(*ssa.Extract); ok {
-					if call, ok := ex.Tuple.(*ssa.Call); ok && call.Call.IsInvoke() && call.Call.Method.Name() == "Next" {
-						fromNext = true
-					}
-				}
-				r.ok(g == producer && fromNext, "stream.BatchFunc|err-writer#"+itoa(nw), st.Pos(), "out.err may only be written by the producer, with the error its source returned")
+			if _, fresh := st.Addr.(*ssa.FieldAddr).X.(*ssa.Alloc); fresh && isNilConst(st.Val) {
+				return
 			}
+			nw++
+			fromNext := true
+			ls := valueLeaves(st.Val, nil, 0)
+			for _, lf := range ls {
+				if isNilConst(lf.v) {
+					continue
+				}
+				if lf.v != errV {
+					fromNext = false
+				}
+			}
+			if g != loopFn && fromNext {
+				recordedByCaller = true
+			}
+			r.ok(prodFrames[g] && fromNext && len(ls) > 0, "stream.BatchFunc|err-writer#"+itoa(nw), st.Pos(), "out.err may only be written by the producer, with the error its source returned")
 		})
 	}
 	if nw == 0 {
 		r.violated("stream.BatchFunc|err-writer", producer.Pos(), "the producer never records the source's error: a failing source would look like a normal end")
 	}
 	// every exit of the producer loop taken with a non-End error either records it or is the self-cancellation exit
-	var nextCall *ssa.Call
-	instrs(producer, func(b *ssa.BasicBlock, i int, in ssa.Instruction) {
-		if call, ok := in.(*ssa.Call); ok && call.Call.IsInvoke() && call.Call.Method.Name() == "Next" {
-			nextCall = call
-		}
-	})
 	if nextCall != nil {
-		var errV ssa.Value
-		for _, ref := range *nextCall.Referrers() {
-			if ex, ok := ref.(*ssa.Extract); ok && ex.Index == 1 {
-				errV = ex
-			}
-		}
 		// blocks where err is known != nil and != End and that leave the loop without storing it
 		pf := &PF{N: 4} // 0 unknown, 1 nil-or-End (benign), 2 pending error, 3 recorded/self-cancel
 		pf.Edge = func(fn *ssa.Function, g guard, q int) (StateSet, bool) {
@@ -540,17 +588,19 @@ func ruleBatchDelivery(c *Ctx, r *R) {
 			if call, ok := in.(*ssa.Call); ok && call == nextCall {
 				return ss(0), true
 			}
-			if st, ok := in.(*ssa.Store); ok && st.Val == errV {
-				if _, f, ok := storedField(st.Addr); ok && f == "err" {
-					return ss(3), true
-				}
+			if st, ok := in.(*ssa.Store); ok && st.Val == errV && isErrField(st.Addr) {
+				return ss(3), true
 			}
 			return 0, false
 		}
 		bad := false
 		var badPos token.Pos
-		for _, e := range pf.Exits(producer, ss(1)) {
+		for _, e := range pf.Exits(loopFn, ss(1)) {
 			if e.States.has(2) || e.States.has(0) { // 0 = the error was never established to be nil / End
+				// a helper may hand the pending error to its caller, which records it
+				if loopFn != producer && recordedByCaller && len(e.Ret.Results) > 0 && returnedValue(e.Ret, len(e.Ret.Results)-1) == errV && !e.States.has(0) {
+					continue
+				}
 				bad = true
 				badPos = retPos(e.Ret)
 			}
@@ -712,4 +762,14 @@ func ruleBatchDelivery(c *Ctx, r *R) {
 		}
 	}
 	r.ok(ann, "stream.batchStream.Next|announce-before-wait", nx.Pos(), "the consumer must announce itself on `waiting` and then wait on batchC; without it an underfilled batch is never released")
+}
+
+// chanElemIsNotEmptyStruct: a data channel (element type other than struct{}).
+func chanElemIsNotEmptyStruct(t types.Type) bool {
+	ch, ok := t.Underlying().(*types.Chan)
+	if !ok {
+		return false
+	}
+	st, isStruct := ch.Elem().Underlying().(*types.Struct)
+	return !(isStruct && st.NumFields() == 0)
 }
